@@ -54,6 +54,8 @@ class TapeRecorder(object):
         # Guards the transitions of the active recording state (start / finalise / discard / force sampling), these can
         # be triggered from worker threads of the recorded operation
         self._state_lock = threading.RLock()
+        # Number of operations currently executing as part of a playback (the played operation and those it invokes)
+        self._playback_operation_depth = 0
 
     @contextmanager
     def start_recording(self, category, metadata, post_operation_metadata_extractor=None):
@@ -372,7 +374,16 @@ class TapeRecorder(object):
 
             def decorated_function(*args, **kwargs):
                 if self.in_playback_mode:
-                    return self._execute_operation_func(func, args, kwargs)
+                    if self._playback_operation_depth > 0 and self._classes_recording_params.get(
+                            args[0] if class_function else type(args[0]), RecordingParameters()).skipped:
+                        # An operation of a skipped class that is invoked by the played operation is plain code, as it
+                        # was when the played operation was recorded (it contributed no operation output)
+                        return func(*args, **kwargs)
+                    self._playback_operation_depth += 1
+                    try:
+                        return self._execute_operation_func(func, args, kwargs)
+                    finally:
+                        self._playback_operation_depth -= 1
 
                 if not self.recording_enabled or self._currently_in_interception:
                     # An operation that is invoked from within an intercepted function is part of that interception
